@@ -4,12 +4,12 @@
 id=$1; cmd=$2; needs=$3; name=${4:-$id}
 out=$(/verif/tool/verifyseed.sh $id "$cmd" 2>&1); echo "$out" | tail -12
 echo "$out" | grep -q "^VERIFIED $id" || { echo "not adopting"; exit 1; }
-res=$(/verif/tool/tryseed.sh /tmp/seed_$id/SEED/patch.diff 2>&1)
+res=$(/verif/tool/tryseed.sh ${SEEDPREFIX:-/tmp/seed_}$id/SEED/patch.diff 2>&1)
 echo "$res" | grep -v "rc=0"
 dst=/verif/seeded/$name
 mkdir -p $dst
-cp /tmp/seed_$id/SEED/patch.diff $dst/
-for f in /tmp/seed_$id/SEED/demo* /tmp/seed_$id/SEED/notes.md /tmp/seed_$id/SEED/*.sh /tmp/seed_$id/SEED/*.py; do [ -f "$f" ] && [ $(stat -c %s "$f") -lt 200000 ] && cp "$f" $dst/ ; done
+cp ${SEEDPREFIX:-/tmp/seed_}$id/SEED/patch.diff $dst/
+for f in ${SEEDPREFIX:-/tmp/seed_}$id/SEED/demo* ${SEEDPREFIX:-/tmp/seed_}$id/SEED/notes.md ${SEEDPREFIX:-/tmp/seed_}$id/SEED/*.sh ${SEEDPREFIX:-/tmp/seed_}$id/SEED/*.py; do [ -f "$f" ] && [ $(stat -c %s "$f") -lt 200000 ] && cp "$f" $dst/ ; done
 rm -f $dst/demo $dst/*.o
 python3 - "$id" "$cmd" "$needs" "$dst" <<PY
 import sys, json, re
